@@ -299,6 +299,11 @@ def check_C11(ctx):
         for sq in range(64):
             texts.append(f'slidertab {kind} {sq}\n')
     texts.append(''.join(f'leapers {sq}\nlines {sq}\n' for sq in range(64)))
+    # the tables must still be what they were after the code that READS them has run: evaluate every specialised endgame
+    # class, corpus and lab positions (and generate their moves) in one process, then dump every table of that process again
+    fens_x, eg_x = eval_positions(ctx, rng, 6, 40, 6 if ctx.tier == 'quick' else 40)
+    texts.append('ztab 9\n' + ''.join(f'pos {f}\neval\nmoves\n' for f in eg_x + fens_x[:200]) +
+                 ''.join(f'leapers {sq}\nlines {sq}\n' for sq in range(64)) + ''.join(f'slidertab {k} {sq}\n' for k in (3, 4) for sq in range(0, 64, 1 if ctx.tier != 'quick' else 3)))
     nrand = 20000 if ctx.tier == 'quick' else 1000000
     per = nrand // (NPROC * 2)
     for _ in range(NPROC * 2):
@@ -339,7 +344,7 @@ def check_C11(ctx):
     return V.finish(ctx, 'proof', thm('C11'),
                     'C11_slider is proved for every square and all 2^64 occupancies (per-square kernel checks of the first-writer-wins table '
                     'against the ray walk + an inductive lemma that the walk ignores the last square of each ray); leapers and lines by exhaustive '
-                    'decide; pawn attacks proved per single pawn (full statement C11_pawn_Statement kept, distributivity over unions not yet proved). '
+                    'decide; pawn attacks for arbitrary pawn sets (C11_pawn). '
                     'The correspondence is exhaustive over the finite tables.', checker_cmd('C11'))
 
 
@@ -569,6 +574,9 @@ def check_C14(ctx):
     # structures whose pawn key falls into chosen cache slots (slot 0 = the slot of every pawnless position)
     rc, L, err = V.run_cpp(ctx.exe, 'ztab 9\n' + ''.join(f'findslot {t} {ctx.seed * 97 + i}\n' for i, t in enumerate([0, 0, 1, 1, 77777, 77777])), timeout=600)
     slotted = [' '.join(l.split()[2:]) for l in L if l.startswith('findslot ') and 'none' not in l]
+    # pairs of different pawn structures whose keys agree in the low 32 bits (same slot; a key comparison narrower than 64 bits confuses them)
+    rc, L2, err = V.run_cpp(ctx.exe, 'ztab 9\n' + ''.join(f'findpair32 {ctx.seed * 131 + i}\n' for i in range(3)), timeout=900)
+    pairs32 = [tuple(x.strip() for x in l.split('|')[1:3]) for l in L2 if l.startswith('findpair32 ') and 'none' not in l]
     # "sibling" positions: the same placement with one side's sliders turned into knights / removed, evaluated right
     # after the original on the same evaluator (state that is recomputed only under some condition goes stale here)
     def siblings(f):
@@ -605,11 +613,13 @@ def check_C14(ctx):
                 ops += [f'pos {rng.choice(slotted)}', 'evalw', 'eval']
         for a, g in sib_pairs[sidx::nsess]:
             ops += [f'pos {a}', 'evalw', 'eval', f'pos {g}', 'evalw', 'eval']
+        for a, g in pairs32:
+            ops += [f'pos {a}', 'evalw', 'eval', f'pos {g}', 'evalw', 'eval', f'pos {a}', 'evalw', 'eval']
         texts.append('\n'.join(ops) + '\n')
     ctx.count('sibling_pairs', len(sib_pairs))
     ctx.cov['rule'] = (f'{nsess} sessions of random interleavings over {len(pool)} positions (corpus, lab, games, every endgame class, extreme material): each position is evaluated by the session\'s '
                        'long-lived evaluator (evalw) and by a fresh one (eval); sibling positions (sliders of one side turned into knights) right after the original; cache clears, pawnless positions right after a clear, and pawn structures searched to fall into chosen cache slots '
-                       f'(slot 0 and collisions: {len(slotted)} found); warm == fresh and |v| < VALUE_MATE - MAX_DEPTH, v != VALUE_NONE on the C++ outputs; model vs C++ on every value')
+                       f'(slot 0 and collisions: {len(slotted)} found; {len(pairs32)} pairs agreeing in the low 32 key bits by birthday search); warm == fresh and |v| < VALUE_MATE - MAX_DEPTH, v != VALUE_NONE on the C++ outputs; model vs C++ on every value')
     md, sd = V.three_way(ctx, texts, lambda l, s: l if l.startswith(('eval ', 'evalw ')) else None, 'evaluation purity',
                          spec_proj=lambda l, s: l if l.startswith('evalw ') else None)
     from concurrent.futures import ThreadPoolExecutor
@@ -955,6 +965,21 @@ def check_C05(ctx):
     ctx.count('no_iteration_completed', sum(1 for r in runs if r['acc'].get('done') == '[]'))
     hunt_if_needed(ctx, ok, 'go -> bestmove', lambda: None)
     uci_glue_extra('C05')(ctx)
+    # the two-thread front end: `go` immediately followed by `stop` must still be answered by exactly one bestmove
+    import uci_sched
+    from concurrent.futures import ThreadPoolExecutor
+    gs_jobs = [(fen, go) for fen in ['rnbqkbnr/pppppppp/8/8/8/8/PPPPPPPP/RNBQKBNR w KQkq - 0 1', 'r3k2r/p1ppqpb1/bn2pnp1/3PN3/1p2P3/2N2Q1p/PPPBBPPP/R3K2R w KQkq - 0 1']
+               for go in ('go infinite', 'go depth 30', 'go wtime 600000 btime 600000')]
+    with ThreadPoolExecutor(max_workers=6) as ex:
+        gs_res = list(ex.map(lambda j: uci_sched.session(ctx.exe, j[0], None, go=j[1], kill_at_end=True), gs_jobs))
+    for (fen, go), r in zip(gs_jobs, gs_res):
+        ctx.cov['evaluations'] += 1
+        ctx.count('uci_go_stop_sessions')
+        nb = len(r['bestmoves'])
+        if nb != 1:
+            V.report_violation(ctx, f'UCI front end: `{go}` followed at once by `stop` was answered by {nb} bestmove lines within 6 s',
+                               f'# feed to the chessplusplus binary in ONE write:\nposition fen {fen}\n{go}\nstop\nisready\n', True, ident=f'go-stop {go} {nb}')
+            break
     return V.finish(ctx, 'proof', thm('C05'),
                     'theorems over the trace automaton (Props/C05.lean): every accepted trace ends in exactly one BESTMOVE naming a root move and every reported pv is a legal line; '
                     'tie = every hooked search run is accepted by the automaton (a rejected trace is a broken correspondence) and the printed bestmove/pv are checked by the rules spec',
@@ -980,6 +1005,9 @@ def check_C06(ctx):
             ops.append(f'go depth 5 stopvisit {k}')
         for pt, nth in ((0, 1), (1, 1), (3, 1), (3, 2), (4, 1)):
             ops.append(f'go depth 3 stoppoint {pt} {nth}')
+        # stop() called from inside the write of the k-th info line: between print_info and the rest of the iteration loop
+        for k in (1, 2, 3):
+            ops.append(f'go depth 6 stopinfo {k}')
         texts.append('\n'.join(ops) + '\n')
     runs = go_run(ctx, texts)
 
@@ -1009,10 +1037,14 @@ def check_C06(ctx):
             if park:
                 jobs.append((fen, park, 'go infinite', True))
         jobs.append((fen, (4, 1, 400), 'go depth 2', False))
+        for k in (1, 2, 3, 4, 6):
+            jobs.append((fen, None, 'go infinite', ('info', k)))
     from concurrent.futures import ThreadPoolExecutor
 
     def one(j):
         fen, park, go, onpark = j
+        if isinstance(onpark, tuple):
+            return j, uci_sched.session(exe, fen, park, go=go, stop_on_info=onpark[1], kill_at_end=True)
         return j, uci_sched.session(exe, fen, park, go=go, stop_on_park=onpark)
     nrep = 0
     with ThreadPoolExecutor(max_workers=max(2, NPROC // 2)) as ex:
@@ -1034,12 +1066,14 @@ def check_C06(ctx):
             if 'ERROR: AddressSanitizer' in r['stderr'] or 'runtime error' in r['stderr']:
                 why = why or 'sanitizer report in the threaded session'
             ctx.count('uci_sessions')
-            if onpark:
+            if isinstance(onpark, tuple):
+                ctx.count('stop_sent_on_info_line')
+            elif onpark:
                 ctx.count('stop_sent_while_parked')
             if why and nrep < 3:
                 nrep += 1
                 V.report_violation(ctx, 'stop handling (real threads): ' + why,
-                                   f'# run: VERIF_PARK={park} cppdrv uci\nposition fen {fen}\n{go}\nstop   # {"sent when the search thread reports PARKED" if onpark else "sent back to back with go"}\nisready\n'
+                                   f'# run: VERIF_PARK={park} cppdrv uci\nposition fen {fen}\n{go}\nstop   # {("sent the moment info line #%d appears" % onpark[1]) if isinstance(onpark, tuple) else ("sent when the search thread reports PARKED" if onpark else "sent back to back with go")}\nisready\n'
                                    f'# observed: bestmoves={r["bestmoves"]} stop_t={r["stop_t"]:.3f} parked_t={r["parked_t"]} readyok_t={r["readyok_t"]}\n', True,
                                    ident=f'{fen} {park} {go} {onpark} {why}')
     # part 3: ThreadSanitizer (supporting evidence)
@@ -1110,6 +1144,11 @@ def check_C08(ctx):
     for fen in ['8/8/8/8/5k2/7p/8/R3K3 w - - 0 1', '8/8/8/8/8/5k2/5p2/5K2 b - - 0 1', '8/8/p7/1p6/1P6/P7/8/k1K5 w - - 0 1', '8/8/8/3k4/8/3K4/3P4/8 w - - 0 1',
                 '8/k7/3p4/p2P1p2/P2P1P2/8/8/K7 w - - 0 1', '7k/8/5N1K/6N1/8/8/8/8 w - - 0 1']:
         texts.append(f'newgame\npos {fen}\n' + ''.join(f'go depth {d}\n' for d in (1, 2, 3, 4, 5)))
+    # "mates" that are none: a double pawn push gives a check whose only answer is the en-passant capture of the checking pawn
+    ep_escape = ['8/8/6pp/7k/5P1p/7K/6P1/8 w - - 0 1', '8/3b2p1/5k2/7P/7K/r7/8/8 b - - 0 1', '8/8/8/3k4/3pP3/8/8/4K3 b - e3 0 1',
+                 '6k1/5ppp/8/8/4Pp2/5K2/8/2r3r1 b - e3 0 1']
+    for fen in ep_escape + [mirror_fen(f) for f in ep_escape]:
+        texts.append(f'newgame\npos {fen}\n' + ''.join(f'go depth {d}\n' for d in (1, 2, 3, 4)) + 'playbest\ngo depth 3\n')
     runs = go_run(ctx, texts)
     ctx.cov['rule'] = (f'{len(mates)} positions with a forced mate in 1 or 2 found by the SPEC solver (some with half-move clock 97-99), searched at depths 1..4 and then followed along the engine\'s own '
                        'moves with a warm table (playbest), plus corpus and pawn-endgame positions at depths 1..5; every final "score mate y" is checked by the exhaustive solver (|y| <= 3), mate-in-one '
@@ -1195,6 +1234,20 @@ def check_C10(ctx):
     texts = []
     long_game = open(os.path.join(REGRESS, 'C10.scn')).read()
     texts.append(long_game + 'go depth 2\ngo depth 3 stopvisit 50\nnewgame\ngo depth 2\n')
+    # searches started a few plies before, at and after the key-history capacity (the search itself makes moves past it)
+    shuffle = [l for l in open(os.path.join(REGRESS, 'C03.scn')).read().splitlines()]
+    main_line, depth_ = [], 0
+    i = 0
+    while i < len(shuffle):
+        l = shuffle[i]
+        if l.startswith('do ') and i + 1 < len(shuffle) and shuffle[i + 1] == 'undo':
+            i += 2
+            continue
+        if l.startswith(('pos ', 'do ')):
+            main_line.append(l)
+        i += 1
+    for nply in ((796, 799, 801) if ctx.tier == 'quick' else (780, 790, 794, 796, 797, 798, 799, 800, 801, 805, 1196, 1199, 1201)):
+        texts.append('\n'.join(main_line[:nply + 1]) + '\ngo depth 5\ngo depth 4 stopvisit 300\nstate\n')
     kk = '7k/8/8/8/8/8/8/K7 w - - 0 1'
     texts.append(f'pos {kk}\n' + ''.join(f'go depth {d}\n' for d in (39, 40, 41, 42, 60, 200, 1000, 2147483647)))
     texts.append('pos 8/8/4k3/p1p1p1p1/P1P1P1P1/8/4K3/8 w - - 0 1\ngo depth 40\ngo depth 41\n')
